@@ -15,18 +15,19 @@ ENTRY = dict(
                   "classification of error/panic messages by substring into the model's codes"],
     assumes=["ClientHelloSpec shape of the predefined parrots: at most one session_ticket extension, pre_shared_key last and only together "
              "with session_ticket, skipResumptionOnNilExtension true, OmitEmptyPsk set when a pre_shared_key extension is present (premise world_ok)",
-             "extension objects modelled as (Initialized, wire bytes, session identity) with explicit pointer identity between the controller's "
-             "extension and the entry of uconn.Extensions; key pairs modelled by generation numbers",
+             "extension objects modelled as (made by caller, Initialized) in the control part and (wire bytes, session identity) in the data part, with "
+             "explicit pointer identity between the controller's extension and the entry of uconn.Extensions; key-share keys modelled by three bits; "
+             "the data comparison in setPskToUConn modelled by the flag psk_same",
              "after Handshake only Handshake and the setters are documented calls (HandshakeState is replaced by the handshake)",
              "HelloGolang is outside the wire/forbidden theorems (known finding golang-session-setter-ignored)"],
-    level_text="Proof on the model of UConn + sessionController (with the apply-preset-once fix). HelloGolang: for histories of any "
-               "length, no assertion panic and the key share keeps its private key (invariant). Mimicking ClientHelloIDs: BOUNDED - every "
-               "history of at most 4 calls over a 12-call alphabet in every parrot-shaped world (exhaustive sweep inside Coq, bound stated "
-               "in each theorem): no assertion panic for documented orders, key-share private keys kept (incl. "
-               "BuildHandshakeStateWithoutSession then BuildHandshakeState), an injected initialized ticket / PSK identity is what the "
-               "marshaled hello and HandshakeState hold, forbidden setter calls return 'session is disabled' or panic with a documented "
-               "message. The unbounded invariant proof for the mimicking IDs is only partly done (setters; not the builds/Handshake). "
-               "Partial also in that cryptography, binder patching, the rest of the ClientHello and the network are not modelled; "
-               "resumption (DidResume on both sides) and the wire bytes are observed by the runner on real loopback handshakes.",
+    level_text="Proof, for histories of any length and any ticket/identity bytes, on the model of UConn + sessionController (code with the "
+               "apply-preset-once fix): every documented call order runs without an assertion panic (HelloGolang included), keeps the "
+               "key-share private keys that belong to the shares in the hello (incl. BuildHandshakeStateWithoutSession then "
+               "BuildHandshakeState), puts an injected initialized ticket / PSK identity into the marshaled hello and HandshakeState "
+               "unchanged, and every forbidden setter call returns 'session is disabled' or panics with a documented message. The model "
+               "state is finite control x provenance flags x data by construction; the invariant is the computed reachable control set of "
+               "each of the 864 parrot-shaped abstract worlds, checked closed by one vm_compute and lifted by induction over the history. "
+               "Partial: cryptography, binder patching, the rest of the ClientHello and the network are not modelled; resumption "
+               "(DidResume on both sides) and the wire bytes are observed by the runner on real loopback handshakes.",
     runner_timeout=1200,
 )
